@@ -24,8 +24,8 @@ var kindNames = [nKinds]string{"truncate", "xor01", "xor80", "set00", "setff", "
 // tinyInputs is the fixed list of empty and 1-3 byte inputs.
 var tinyInputs = func() [][]byte {
 	b0s := []byte{0x00, 0x01, 0x02, 0x03, 0x04, 0x05, 0x06, 0x0c, 0x13, 0x17, 0x1f, 0x30, 0x31, 0x3f, 0x5f, 0x7f, 0x80, 0x81, 0xa0, 0xa3, 0xbf, 0xdf, 0xff, '-', 'M'}
-	b1s := []byte{0x00, 0x01, 0x02, 0x7f, 0x80, 0x81, 0x82, 0x84, 0x88, 0xff}
-	b2s := []byte{0x00, 0x01, 0xff}
+	b1s := []byte{0x00, 0x01, 0x7f, 0x80, 0x81, 0x82, 0x84, 0xff}
+	b2s := []byte{0x00, 0xff}
 	out := [][]byte{{}}
 	for _, b0 := range b0s {
 		out = append(out, []byte{b0})
@@ -64,10 +64,19 @@ type mutant struct {
 	what  string
 }
 
+// In the quick tier artefacts longer than halfSubstAbove bytes get two of the four substitutions at
+// each position (^0x01 and 0x00 at even, ^0x80 and 0xFF at odd positions); thorough applies all four everywhere.
+const halfSubstAbove = 512
+
+var allSubstitutions = false
+
 // mutantsAt appends the mutants of a kind at one position.
 func mutantsAt(kind int, a *artefact, w *world, i int, out []mutant) []mutant {
 	sub := func(v byte, what string) []mutant {
 		if a.data[i] == v {
+			return out
+		}
+		if !allSubstitutions && len(a.data) > halfSubstAbove && (i%2 == 0) != (kind == kXor01 || kind == kSet00) {
 			return out
 		}
 		m := append([]byte{}, a.data...)
